@@ -58,6 +58,8 @@ def main(argv=None):
     problems = []      # (kind, name, text, ob or None)
     fn_records = []
     libs = set()
+    assumed = set()
+    math_used = set()
     uncontracted = set()
     contract_src = None
     for tags in configs:
@@ -72,7 +74,10 @@ def main(argv=None):
         have = {V.display_name(f): f for f in V.functions_with_contracts()}
         allfuncs = {V.display_name(f): f for f in V.prog.funcs.values()}
         selected = []
+        lemma_names = [w[6:] for w in wanted if w.startswith("lemma:")]
         for pat in wanted:
+            if pat.startswith("lemma:"):
+                continue
             ms = [n for n in have if fnmatch.fnmatchcase(n, pat)]
             if not ms:
                 ms2 = [n for n in allfuncs if fnmatch.fnmatchcase(n, pat)]
@@ -83,10 +88,17 @@ def main(argv=None):
             for n in ms:
                 if n not in selected:
                     selected.append(n)
-        for n in selected:
-            f = have[n]
+        for ln_ in lemma_names:
+            if ln_ not in V.contracts.lemmas:
+                problems.append(("binding", "lemma:%s#missing/%s" % (ln_, cfgname), "lemma %s is not declared in the contracts" % ln_, None))
+        for n in [("lemma", x) for x in lemma_names if x in V.contracts.lemmas] + selected:
             t1 = time.time()
-            rec = V.verify_function(f)
+            if isinstance(n, tuple):
+                rec = V.verify_lemma(n[1])
+                n = rec["name"]
+            else:
+                f = have[n]
+                rec = V.verify_function(f)
             V.discharge(rec["obligations"])
             for ob in rec["obligations"]:
                 ob.config = cfgname
@@ -100,6 +112,8 @@ def main(argv=None):
                                "partitions": rec["partitions"], "paths": rec["paths"], "obligations": len(rec["obligations"]),
                                "trusted": rec["trusted"], "secs": round(time.time() - t1, 2)})
         libs |= V.lib_used
+        assumed |= V.assumed
+        math_used |= V.math_used
         # functions reachable from the selected ones that have no contract
         for caller, callees in V.calls.items():
             pass
@@ -131,7 +145,8 @@ def main(argv=None):
     # report
     violations = 0
     known_hits = []
-    os.makedirs(os.path.join(ROOT, "replay", pid), exist_ok=True)
+    replay_root = os.environ.get("GOVC_REPLAY_DIR", os.path.join(ROOT, "replay"))
+    os.makedirs(os.path.join(replay_root, pid), exist_ok=True)
     lines = []
     for kind, name, text, ob in problems:
         kf = match_known(known, pid, name)
@@ -139,7 +154,7 @@ def main(argv=None):
             known_hits.append((kf, name))
             continue
         violations += 1
-        path = os.path.join(ROOT, "replay", pid, sanitize(name) + ".json")
+        path = os.path.join(replay_root, pid, sanitize(name) + ".json")
         rep = {"property": pid, "obligation": name, "kind": kind, "status": text, "tier": tier}
         tail = ""
         if ob is not None:
@@ -178,6 +193,9 @@ def main(argv=None):
                         "hypotheses": len(ob.hyps)})
     trusted = list(pm.get("trusted_base", []))
     trusted += ["T-lib assumed contract: " + l for l in sorted(libs)]
+    trusted += ["K3 instance assumed in %s [%s]: %s" % a_ for a_ in sorted(assumed)]
+    trusted += ["T-math used by the tier-F evaluator: " + m_ for m_ in sorted(math_used)]
+    ncerts = sum(len(getattr(ob, "lemmas", []) or []) for ob in all_obs)
     ev = {
         "property_id": pid, "tier": tier, "seed": seed, "level": pm.get("level", "proof"),
         "coverage": {
@@ -192,6 +210,7 @@ def main(argv=None):
             "solver_seconds": round(solver_secs, 2),
             "slowest_obligation": {"name": slowest[0], "secs": slowest[1]},
             "covers": covers,
+            "ring_lemma_certificates_checked": ncerts,
             "configs": configs,
             "contracts_from": contract_src,
             "not_discharged": [p[1] for p in problems],
@@ -206,8 +225,9 @@ def main(argv=None):
         "wall_s": round(wall, 2),
         "violations": violations,
     }
-    os.makedirs(os.path.join(ROOT, "evidence"), exist_ok=True)
-    json.dump(ev, open(os.path.join(ROOT, "evidence", pid + ".json"), "w"), indent=1)
+    evdir = os.environ.get("GOVC_EVIDENCE_DIR", os.path.join(ROOT, "evidence"))
+    os.makedirs(evdir, exist_ok=True)
+    json.dump(ev, open(os.path.join(evdir, pid + ".json"), "w"), indent=1)
     for l in lines:
         print(l)
     print("%s %s: %d obligations, %d discharged, %d not discharged (%d known), %d functions, %.1fs" % (
